@@ -148,7 +148,7 @@ Definition ops_touch_only_named_ids_statement : Prop :=
      (forall j f, alookup j (st_facts (fst (st_Rem s id now))) = Some f -> alookup j (st_facts s) = Some f)) /\
   (* linear state: what Rem loses is in the deleteWith closure (any failure) *)
   (forall s id now,
-     st_kind s = Linear -> no_expired s now -> ids_not_varlike s -> is_var id = false ->
+     st_kind s = Linear -> no_expired s now ->
      forall k, lost_between s (fst (st_Rem s id now)) k -> Clo s id k) /\
   (* reads of a state without expired facts (and without a pending purge: the
      list of noted ids is empty between any two operations) change nothing at all *)
